@@ -95,6 +95,8 @@ type HarnessStats struct {
 	MaxDepth    int
 	Ranges      map[string]string
 	KnownHits   []string
+	IfConverted int
+	SpecAborts  int
 }
 
 func newHarnessStats(name string) *HarnessStats {
@@ -112,6 +114,9 @@ func (h *HarnessStats) merge(o *HarnessStats) {
 	h.ByModel += o.ByModel
 	h.UnknownObl += o.UnknownObl
 	h.Steps += o.Steps
+	h.Wall += o.Wall
+	h.IfConverted += o.IfConverted
+	h.SpecAborts += o.SpecAborts
 	h.ArithUsed = h.ArithUsed || o.ArithUsed
 	if o.MaxDepth > h.MaxDepth {
 		h.MaxDepth = o.MaxDepth
@@ -158,6 +163,12 @@ type Engine struct {
 	constCache   map[*ssa.Const]value
 	implCache    map[implKey]bool
 	resolveCache map[*ssa.Function]*resolved
+	cfgs         map[*ssa.Function]*fnCFG
+	know         *knowledge
+	specDepth    int
+	specLimit    int64
+	noIfConv     bool
+	fmtSeq       int
 	intrinsics   map[string]intrinsic
 
 	// per path
@@ -217,6 +228,8 @@ func NewEngine(prog *ssa.Program, pkg *ssa.Package, cfg *Config, solvers []strin
 	e.constCache = map[*ssa.Const]value{}
 	e.implCache = map[implKey]bool{}
 	e.resolveCache = map[*ssa.Function]*resolved{}
+	e.cfgs = map[*ssa.Function]*fnCFG{}
+	e.know = newKnowledge()
 	e.intrinsics = buildIntrinsics()
 	if rt := prog.ImportedPackage("runtime"); rt != nil {
 		e.runtimeErrorString = rt.Type("errorString").Object().Type()
@@ -243,6 +256,16 @@ func (e *Engine) assume(c *Term) {
 		return
 	}
 	e.pc = append(e.pc, c)
+	e.know.learn(c)
+}
+
+// assumeAux adds a constraint on auxiliary (engine-introduced, uniquely determined) variables;
+// the current model no longer covers them, so it is re-derived on demand.
+func (e *Engine) assumeAux(c *Term) {
+	e.assume(c)
+	if e.pos >= len(e.prefix) {
+		e.model = nil
+	}
 }
 
 func (e *Engine) vars() []*Term { return e.pathVars }
@@ -271,6 +294,12 @@ func (e *Engine) ensureModel() {
 func (e *Engine) branch(cond *Term, site string) bool {
 	if cond.IsConst() {
 		return cond.Val != 0
+	}
+	if known, v := e.know.decide(cond); known {
+		return v
+	}
+	if e.specDepth > 0 {
+		panic(specAbort{"fork at " + site})
 	}
 	if e.pos < len(e.prefix) {
 		d := e.prefix[e.pos]
@@ -326,6 +355,12 @@ func (e *Engine) concretise(t *Term, what string) int64 {
 		return sext64(t.Val, t.W)
 	}
 	var v uint64
+	if lo, hi, _ := e.know.rangeOf(t); lo == hi {
+		return sext64(lo, t.W)
+	}
+	if e.specDepth > 0 {
+		panic(specAbort{"concretise " + what})
+	}
 	if e.pos < len(e.prefix) {
 		d := e.prefix[e.pos]
 		e.pos++
@@ -380,6 +415,9 @@ func (e *Engine) choose(name string, n int) int {
 	if n <= 1 {
 		return 0
 	}
+	if e.specDepth > 0 {
+		panic(specAbort{"choose"})
+	}
 	if e.pos < len(e.prefix) {
 		d := e.prefix[e.pos]
 		e.pos++
@@ -407,6 +445,9 @@ func (e *Engine) mapOrder(m *hmap) []value {
 	copy(keys, m.keys)
 	if n <= 1 || e.ghost.fixedMapOrder {
 		return keys
+	}
+	if e.specDepth > 0 {
+		panic(specAbort{"maporder"})
 	}
 	var perms [][]int
 	if n <= 3 {
@@ -660,6 +701,9 @@ func (e *Engine) resetPath() {
 	e.varSeq = map[string]int{}
 	e.ghost = newGhost()
 	e.arithUsed = false
+	e.know = newKnowledge()
+	e.specDepth = 0
+	e.fmtSeq = 0
 }
 
 // runPath executes one path following item.prefix; returns how it ended.
